@@ -27,6 +27,10 @@ class Ob:
     funcs: List[str] = field(default_factory=list)
     twin: bool = True
     raises: str = ""  # exceptions that are legitimate outcomes (never used to hide crashes)
+    # history obligations only: CrossHair re-executes every path in ONE process, so a path can fail because of state an EARLIER path left
+    # behind; its arguments then do not reproduce alone.  `fallback` is an expression (evaluated untraced) that searches the obligation's
+    # finite table in fresh interpreters and returns self-contained failing arguments, or None.
+    fallback: str = ""
     skip_kf: List[str] = field(default_factory=list)  # not run at all while one of these findings is open (whole cell is the finding)
 
 
